@@ -272,6 +272,9 @@ async fn scenario(w: World, p: P) -> Out {
         let t0 = sim.now();
         api!(dw.write(msg(0, 0, k, 16), None), "write");
         let t1 = sim.now();
+        if std::env::var("C33_DEBUG").is_ok() {
+            eprintln!("  write #{k} at +{} us", (t0 - EPOCH_NS) / 1000);
+        }
         sim.sleep(350 * MS).await;
         // which readers hold the sample now?
         let got: Vec<u32> = match sim.timeout(10 * SEC, dr.read(i32::MAX, ANY_SAMPLE_STATE, ANY_VIEW_STATE, ANY_INSTANCE_STATE)).await {
@@ -553,6 +556,10 @@ pub fn run(shard: &Shard) -> Report {
         let replay = shard.base_replay("c33", case).set("engine", "scen_stat").set("params", p.to_json());
         let panicked = report_panics(&mut rep, &stats, &replay);
         let Some(o) = res else {
+            if trace {
+                eprintln!("  unfinished: stop={:?} polls={} worker_polls={} end=+{} us timer_tail={:?}", stats.stop, stats.polls, stats.worker_polls, (stats.end_ns - EPOCH_NS) / 1000,
+                    stats.timer_tail.iter().map(|(t, d)| ((t - EPOCH_NS) / 1000, *d)).collect::<Vec<_>>());
+            }
             if !panicked {
                 rep.inconclusive(format!("case {case}: scenario did not finish ({:?})", stats.stop));
             }
